@@ -372,8 +372,62 @@ def probe(ctx: Ctx, rng) -> None:
     probe_run(ctx, steps, kind)
 
 
+ZERO_SPELLINGS = [0, 0.0, -0.0, np.float64(0.0), np.float64(-0.0), np.int64(0), np.float32(0), Fraction(0)]
+PIVOTS = [1, 1.0, 0.3, -0.5, np.float64(1.0), Fraction(1, 3), -2, np.int64(-1), math.pi, -math.pi]
+
+
+def probe_numeric(ctx: Ctx, rng) -> None:
+    """Boundary numerics outside the exact tables, on the implementation alone: a bound that is a zero of
+    any numeric type (all falsy), or another pivot; installed by the constructor or by the setter; then
+    updates (direct and through a ParameterDict) by one ulp / a denormal / a lot beyond the bound, exactly on
+    it, removal and re-installation.  Clauses: value within bounds after every call, rejected call = no-op."""
+    zero = rng.random() < 0.7
+    pivot = rng.choice(ZERO_SPELLINGS if zero else PIVOTS)
+    side = rng.choice(["max", "min"])
+    out = 1.0 if side == "max" else -1.0          # direction that leaves the range
+    fp = float(pivot)
+    tiny = 5e-324 if fp == 0 else abs(fp) * 2e-16
+
+    def beyond():
+        return rng.choice([math.nextafter(fp, out * math.inf), fp + out * tiny, fp + out * 1e-9, fp + out * 0.5,
+                           fp + out * 3, int(math.floor(fp)) + 1 if out > 0 else int(math.ceil(fp)) - 1])
+
+    def inside():
+        return rng.choice([fp - out * 0.25, fp - out * 1.0, math.nextafter(fp, -out * math.inf), pivot,
+                           int(math.ceil(fp)) - 1 if out > 0 else int(math.floor(fp)) + 1])
+
+    v0 = inside()
+    far = rng.choice([None, None, min(v0, fp) - 2 if side == "max" else max(v0, fp) + 2, v0])
+    bounds = [far, pivot] if side == "max" else [pivot, far]
+    if rng.random() < 0.5:
+        steps = [["new", v0, bounds]]
+        how = "ctor"
+    else:
+        steps = [["new", v0, None if far is None else ([far, None] if side == "max" else [None, far])], [side, pivot]]
+        how = "setter"
+    for _ in range(rng.randint(2, 6)):
+        r = rng.random()
+        if r < 0.4:
+            steps.append([rng.choice(["set", "dset"]), beyond()])
+        elif r < 0.55:
+            steps.append([rng.choice(["set", "dset"]), rng.choice([pivot, *ZERO_SPELLINGS[:3]]) if zero else pivot])
+        elif r < 0.7:
+            steps.append([rng.choice(["set", "dset"]), inside()])
+        elif r < 0.8:
+            steps.append(["set", rng.choice(["a", None])])
+        elif r < 0.9:
+            steps += [[side, None], ["set", beyond()], [side, pivot], ["set", inside()], [side, pivot]]
+        else:
+            other = "min" if side == "max" else "max"
+            steps += [[other, None], ["set", rng.choice(["a", None])]]   # the pivot is now the ONLY bound
+    steps.append([rng.choice(["set", "dset"]), beyond()])
+    ctx.count(f"probe:numeric:{'zero' if zero else 'pivot'} {type(pivot).__name__} as {side} via {how}:oracle-only")
+    probe_run(ctx, steps, "numeric")
+
+
 def probe_run(ctx: Ctx, steps: list, kind: str) -> None:
     p = None
+    pd = None
     nan_seen = False
     for k, st in enumerate(steps):
         before = None if p is None else (p.get(), p.min_bound, p.max_bound)
@@ -384,6 +438,10 @@ def probe_run(ctx: Ctx, steps: list, kind: str) -> None:
                 p = lw.Parameter(st[1], bounds=st[2])
             elif st[0] == "set":
                 p.set(arg)
+            elif st[0] == "dset":
+                if pd is None:
+                    pd = lw.ParameterDict(k=p)
+                pd["k"] = arg
             elif st[0] == "min":
                 p.min_bound = arg
             else:
@@ -630,10 +688,13 @@ def run(ctx: Ctx) -> None:
     streams()
     if STREAMS != ["corpus", "generic", "boundary", "rewrite", "probe"]:
         ctx.notes.append(f"C10_STREAMS={','.join(STREAMS)}: not the full check")
-    for _ in range(ctx.n(80, 800) if "probe" in STREAMS else 0):
+    for i in range(ctx.n(240, 2400) if "probe" in STREAMS else 0):
         if ctx.out_of_time():
             break
-        probe(ctx, rng)
+        if i % 3 == 0:
+            probe(ctx, rng)
+        else:
+            probe_numeric(ctx, rng)
         ctx.evaluations += 1
 
 
@@ -642,7 +703,8 @@ def replay(ctx: Ctx, path: str) -> None:
     rp = data["replay"]
     if "probe" in rp:
         print("replay: probe histories are re-run by the probe stream (values are python reprs):", rp["probe"])
-        steps = [[s[0], eval(s[1], {"nan": NAN, "inf": math.inf, "np": np}), *([eval(s[2], {"nan": NAN, "inf": math.inf})] if len(s) > 2 else [])]  # noqa: S307
+        env = {"nan": NAN, "inf": math.inf, "np": np, "Fraction": Fraction}
+        steps = [[s[0], eval(s[1], env), *([eval(s[2], env)] if len(s) > 2 else [])]  # noqa: S307
                  for s in rp["probe"]]
         probe_run(ctx, steps, "replay")
         ctx.case("replay", True)
